@@ -506,7 +506,11 @@ class Polygon(Shape2D):
         max_attempts = 10
         attempt = 0
         current_rotation = [1, 0, 0, 0]
-        vertices = self.vertices
+        # miniball uses absolute tolerances: hand it the vertices at unit size.
+        offset = np.mean(self.vertices, axis=0)
+        scale = np.max(np.ptp(self.vertices, axis=0))
+        unit_vertices = (self.vertices - offset) / scale
+        vertices = unit_vertices
         while attempt < max_attempts:
             attempt += 1
             try:
@@ -514,15 +518,15 @@ class Polygon(Shape2D):
                 break
             except np.linalg.LinAlgError:
                 current_rotation = rowan.random.rand(1)
-                vertices = rowan.rotate(current_rotation, vertices)
+                vertices = rowan.rotate(current_rotation, unit_vertices)
 
         if attempt == max_attempts:
             raise RuntimeError("Unable to solve for a bounding circle.")
 
         # The center must be rotated back to undo any rotation.
-        center = rowan.rotate(rowan.conjugate(current_rotation), center)
+        center = np.ravel(rowan.rotate(rowan.conjugate(current_rotation), center))
 
-        return Circle(np.sqrt(r2), center)
+        return Circle(np.sqrt(r2) * scale, center * scale + offset)
 
     @property
     def circumcircle(self):
